@@ -24,6 +24,13 @@ condition on the configuration (no script adds that header) or on the request (t
 one already, which then stays the first entry).  The parts of the property that need neither
 hypothesis are separate theorems: `C07_label`, `C07_requested`, `C07_decodes`, `C07_plain`,
 `C07_once`, `C07_prior`; `C07_enabled_partial` needs F09 only.
+
+Since a0e838d (F18 of C10 repaired) the chain `HandleWithFilter` builds recovers from a panic like
+`dispatch` does: the recover handler then writes through the compressing writer the closure of
+`Handle` (or `ServeHTTP`) installed, before the deferred `Close`.  The simulation follows it
+(`Serve.Enc.plainFilteredBody_sim`/`_inv`: the same panic unwinds in both runs, the recover handler
+runs in both or in neither); no statement changed, and every theorem here speaks of all six entry
+points.  The last example below is that path.
 -/
 import Restful.Lemmas.Coding
 namespace Restful
@@ -212,6 +219,36 @@ example :
       some { coding := .gzip, payload := "abc!".toList, closed := true } ∧
     Spec.c07Holds Eany cfgP .dispatch (get "gzip")
       (Spec.obsOf (Serve.serve Eany cfgP .dispatch {} (get "gzip"))) = true := by
+  decide
+
+/-- `HandleWithFilter`, encoding and recovery on, custom recover handler: the container filter
+    writes two bytes, the plain handler one and then panics -/
+def cfgHF : Serve.Cfg :=
+  { routing := routing
+    cfilters := [ { id := 1, pre := [.write "ab".toList], kind := .pass, post := [.write "z".toList] } ]
+    plainScript := [.write "c".toList, .panic "p".toList, .write "de".toList]
+    encoding := true
+    recover := true
+    recoverScript := some [.write "!".toList] }
+
+/-- the recovered panic on the `HandleWithFilter` chain (through `ServeHTTP`, which installs the
+    compressing writer, and through the mux alone, where the closure of `Handle` does): the recover
+    handler's byte goes through the compressor after the three bytes written before the panic, the
+    stream is complete, nothing escapes, and the property holds; the reference run without codings
+    has the same four bytes as its body -/
+example :
+    Spec.f09Class Eany cfgHF .serveHandleF (get "gzip") = false ∧ Serve.Enc.userCE cfgHF = false ∧
+    (Serve.serve Eany cfgHF .serveHandleF {} (get "gzip")).rc.comp =
+      some { coding := .gzip, payload := "abc!".toList, closed := true } ∧
+    (Serve.serve Eany cfgHF .serveHandleF {} (get "gzip")).escaped = none ∧
+    (Serve.serve Eany (Spec.noCoding cfgHF) .serveHandleF {} (get "")).rc.body = "abc!".toList ∧
+    Spec.c07Holds Eany cfgHF .serveHandleF (get "gzip")
+      (Spec.obsOf (Serve.serve Eany cfgHF .serveHandleF {} (get "gzip"))) = true ∧
+    (Serve.serve Eany cfgHF .muxHandleF {} (get "deflate")).rc.comp =
+      some { coding := .deflate, payload := "abc!".toList, closed := true } ∧
+    (Serve.serve Eany cfgHF .muxHandleF {} (get "deflate")).world = { acquired := 1, released := 1 } ∧
+    Spec.c07Holds Eany cfgHF .muxHandleF (get "deflate")
+      (Spec.obsOf (Serve.serve Eany cfgHF .muxHandleF {} (get "deflate"))) = true := by
   decide
 
 end C07Witness
